@@ -15,6 +15,7 @@ import UnifexModel.Driver.Entries.Coro
 import UnifexModel.Driver.Entries.Mutex
 import UnifexModel.Driver.Entries.Cancel
 import UnifexModel.Driver.Entries.AsyncStack
+import UnifexModel.Driver.Entries.Event
 
 namespace Unifex.Driver
 
@@ -42,6 +43,10 @@ def table : List ModelEntries :=
   , Entries.canary
   , Entries.stoponrequest
   , Entries.asyncstackEntries
+  , Entries.eventv1
+  , Entries.autoreset
+  , Entries.eventv2
+  , Entries.asyncpass
   ]
 
 def lookup (m c : String) : Option Entry :=
